@@ -281,8 +281,8 @@ def rule_cleanup(ctx: Ctx) -> RuleResult:
             a = n.ast
             if isinstance(a, ast.Delete) and any(isinstance(t, ast.Subscript) and ast.unparse(t.value).endswith("." + attr) for t in a.targets):
                 out.append(n)
-            elif a is not None and n.kind not in ("for", "with", "handler"):
-                for c in walk_no_nested(a):
+            elif a is not None and n.kind not in ("with", "handler"):
+                for c in walk_no_nested(a.iter if n.kind == "for" else a):
                     if isinstance(c, ast.Call) and isinstance(c.func, ast.Attribute) and c.func.attr in ("pop", "clear", "popitem") and ast.unparse(c.func.value).endswith("." + attr):
                         out.append(n)
         return out
@@ -309,6 +309,13 @@ def rule_cleanup(ctx: Ctx) -> RuleResult:
         rr.inst(f"deps removal {norm(d.stmt, 40)}", True, {"removal": norm(d.stmt, 50), "under": sorted(f"{t} is {lab}" for t, lab in cd)})
         if cd != cw:
             rr.add(finding("PAIR", fi, d.stmt, f"`{norm(d.stmt, 50)}` runs under {sorted(f'{t}={lab}' for t, lab in cd) or 'no condition'}, the widget's _widgets entry is dropped under {sorted(f'{t}={lab}' for t, lab in cw)}: when one of several cached canvases of a widget is collected its ancestors lose the dependency edge and keep serving stale canvases after the widget changes", construct=f"_deps dropped under other conditions than _widgets: {norm(d.stmt, 50)}"))
+        # the edges that go are the only way invalidate(widget) could reach the dependants later; a canvas that named
+        # the widget with set_depends() does not keep the widget's canvases alive, so it can outlive them: the
+        # dependants taken out of _deps are invalidated on the spot (loop over the popped list calling invalidate)
+        feeds = d.kind == "for" and any(isinstance(c, ast.Call) and isinstance(c.func, ast.Attribute) and c.func.attr == "invalidate" for b in d.ast.body for c in ast.walk(b))
+        rr.inst(f"dependants of {norm(d.stmt, 30)} invalidated", True, {"removal": norm(d.stmt, 60), "dependants_invalidated": feeds})
+        if not feeds:
+            rr.add(finding("PAIR", fi, d.stmt, f"`{norm(d.stmt, 50)}` forgets who depends on the widget without invalidating them: a cached canvas that declared the widget with set_depends() (hidden Pile item, dropped column) stays in the cache with nothing left that could invalidate it - the hidden child changes and its parent keeps being served from the cache", construct="dependency edges dropped without invalidating the dependants"))
     return rr
 
 
@@ -456,6 +463,7 @@ def run(ctx: Ctx):
 from ..mutants import Mut  # noqa: E402
 
 MUTANTS = [
+    Mut("cleanup-forgets-dependants", "urwid/canvas.py", "CanvasCache.cleanup", "            for dependant in cls._deps.pop(widget, []):\n                cls.invalidate(dependant)\n", "            cls._deps.pop(widget, None)\n", "PAIR|canvas.CanvasCache.cleanup|dependency edges dropped without invalidating the dependants"),
     Mut("edit-text-emits-before-invalidating", "urwid/widget/edit.py", "Edit.set_edit_text", "        self.edit_pos = min(self.edit_pos, len(text))\n", "        self._edit_pos = min(self._edit_pos, len(text))\n        self.pref_col_maxcol = None, None\n", "INV-EMIT|widget.edit.Edit.set_edit_text|emission before invalidation of"),
     Mut("columns-hidden-test-counts-widths", "urwid/widget/columns.py", "Columns.render", "        if len(data) < len(self.contents):", "        if len(data) < len(widths):", "HIDDEN-DEP|widget.columns.Columns.render|hidden-child test does not count contents"),
     Mut("attrmap-stores-callers-dict", "urwid/widget/attr_map.py", "AttrMap.set_attr_map", "        self._attr_map = dict(attr_map)\n", "        self._attr_map = attr_map\n", "ALIAS|widget.attr_map.AttrMap.set_attr_map|self._attr_map stores a foreign object"),
@@ -471,8 +479,8 @@ MUTANTS = [
     Mut("cache-rows-ignores-focus-mask", "urwid/widget/widget.py", "cache_widget_rows", "        focus = focus and not ignore_focus\n", "", "SIB|"),
     Mut("edit-render-flag-without-invalidate", "urwid/widget/edit.py", "Edit.render", "        if self._shift_view_to_cursor != bool(focus):\n            # The inherited Text rendering is cached without regard to focus: drop it when the view shift changes\n            self._shift_view_to_cursor = bool(focus)\n            self._invalidate()\n", "        self._shift_view_to_cursor = bool(focus)\n", "INV-LAYER|widget.edit.Edit.render"),
     Mut("edit-cursor-coords-flag-without-invalidate", "urwid/widget/edit.py", "Edit.get_cursor_coords", "        if not self._shift_view_to_cursor:\n            self._shift_view_to_cursor = True\n            self._invalidate()\n", "        self._shift_view_to_cursor = True\n", "INV-LAYER|widget.edit.Edit.get_cursor_coords"),
-    Mut("cleanup-drops-deps-early", "urwid/canvas.py", "CanvasCache.cleanup", "        if not sizes:\n            with contextlib.suppress(KeyError):\n                del cls._widgets[widget]\n                del cls._deps[widget]", "        cls._deps.pop(widget, None)\n        if not sizes:\n            with contextlib.suppress(KeyError):\n                del cls._widgets[widget]", "PAIR|canvas.CanvasCache.cleanup"),
-    Mut("twin-cleanup-pop-form", "urwid/canvas.py", "CanvasCache.cleanup", "            with contextlib.suppress(KeyError):\n                del cls._widgets[widget]\n                del cls._deps[widget]", "            cls._widgets.pop(widget, None)\n            cls._deps.pop(widget, None)", twin=True),
+    Mut("cleanup-drops-deps-early", "urwid/canvas.py", "CanvasCache.cleanup", "        if not sizes:\n            with contextlib.suppress(KeyError):\n                del cls._widgets[widget]\n", "        cls._deps.pop(widget, None)\n        if not sizes:\n            with contextlib.suppress(KeyError):\n                del cls._widgets[widget]\n", "PAIR|canvas.CanvasCache.cleanup"),
+    Mut("twin-cleanup-pop-form", "urwid/canvas.py", "CanvasCache.cleanup", "            with contextlib.suppress(KeyError):\n                del cls._widgets[widget]\n", "            cls._widgets.pop(widget, None)\n", twin=True),
     Mut("scrollable-position-moved-without-invalidate", "urwid/widget/scrollable.py", "Scrollable._adjust_trim_top", "        if self._trim_top != old_trim_top:\n            # canvases cached for other sizes show the old position\n            self._invalidate()\n", "", "INV-RENDER|widget.scrollable.Scrollable._adjust_trim_top"),
     Mut("scrollable-reset-without-invalidate", "urwid/widget/scrollable.py", "Scrollable._adjust_trim_top", "            if self._trim_top != old_trim_top:\n                # canvases cached for other sizes show the old position\n                self._invalidate()\n            return", "            return", "INV-RENDER|widget.scrollable.Scrollable._adjust_trim_top"),
     Mut("listbox-focus-complete-without-invalidate", "urwid/widget/listbox.py", "ListBox._set_focus_complete", "        (maxcol, maxrow) = size\n        self._invalidate()\n", "        (maxcol, maxrow) = size\n", "INV-RENDER|widget.listbox.ListBox"),
